@@ -93,20 +93,17 @@ fn unknown_value(v: &GVal, fmt: Format, attr_blob: &dyn Fn(&GVal) -> Option<Vec<
             GVal::String(s) | GVal::ContentId(s) => GVal::BinaryString(s.as_bytes().to_vec()),
             GVal::Tags(t) => GVal::BinaryString(tags_blob(t)),
             GVal::MaterialColors(_) => GVal::BinaryString(material_colors_blob(v)),
-            GVal::Attributes(_) => match attr_blob(v) {
-                Some(b) => GVal::BinaryString(b),
-                None => v.clone(),
-            },
+            GVal::Attributes(_) => {
+                let _ = attr_blob;
+                normalise_attributes(v)
+            }
             other => other.clone(),
         },
         Format::Xml | Format::XmlNoReflection => match v {
             GVal::BrickColor(n) => GVal::Int32(*n as i32),
             GVal::Tags(t) => GVal::BinaryString(tags_blob(t)),
             GVal::MaterialColors(_) => GVal::BinaryString(material_colors_blob(v)),
-            GVal::Attributes(_) => match attr_blob(v) {
-                Some(b) => GVal::BinaryString(b),
-                None => v.clone(),
-            },
+            GVal::Attributes(_) => normalise_attributes(v),
             other => other.clone(),
         },
     }
@@ -200,7 +197,10 @@ pub struct Norm {
     pub snap_rotation: bool,
     /// NaNs are compared as a class
     pub nan_class: bool,
-    /// -0 == +0 is NOT granted by any property; kept false everywhere
+    /// the same snap inside an attribute blob (the attribute codec uses the
+    /// same rotation-id mechanism whatever file format carries the blob)
+    pub snap_in_attributes: bool,
+    /// an instance may gain properties other same-class instances carried
     pub extra_names_allowed: bool,
 }
 
@@ -209,6 +209,7 @@ impl Norm {
         Norm {
             snap_rotation: true,
             nan_class: false,
+            snap_in_attributes: true,
             extra_names_allowed: true,
         }
     }
@@ -216,6 +217,7 @@ impl Norm {
         Norm {
             snap_rotation: false,
             nan_class: true,
+            snap_in_attributes: true,
             extra_names_allowed: false,
         }
     }
@@ -328,10 +330,22 @@ pub fn val_matches(exp: &GVal, act: &GVal, norm: &Norm) -> bool {
         (GVal::CFrame(e), GVal::CFrame(a)) => cf_matches(e, a, norm),
         (GVal::OptionalCFrame(Some(e)), GVal::OptionalCFrame(Some(a))) => cf_matches(e, a, norm),
         (GVal::Attributes(e), GVal::Attributes(a)) => {
+            let inner = Norm {
+                snap_rotation: norm.snap_rotation || norm.snap_in_attributes,
+                ..*norm
+            };
             e.len() == a.len()
                 && e.iter()
                     .zip(a.iter())
-                    .all(|((ek, ev), (ak, av))| ek == ak && val_matches(ev, av, norm))
+                    .all(|((ek, ev), (ak, av))| ek == ak && val_matches(ev, av, &inner))
+        }
+        // an attribute map stored on a property unknown to the database comes
+        // back as the blob itself: decode it with the independent codec
+        (GVal::Attributes(_), GVal::BinaryString(b)) => {
+            match crate::spec::refattr::decode_map(b) {
+                Ok(entries) => val_matches(&exp, &GVal::Attributes(entries), norm),
+                Err(_) => false,
+            }
         }
         (GVal::MaterialColors(_), GVal::MaterialColors(_)) => {
             exp.normalise_material_colors() == act.normalise_material_colors()
